@@ -42,6 +42,7 @@ func (deb *Deb) CheckDebsig(validKeys openpgp.EntityList, sigType string) (signe
 	if control == nil || data == nil {
 		return nil, fmt.Errorf("unable to find signed data")
 	}
+	sig.Data.Seek(0, 0)
 	binaryFlag.Data.Seek(0, 0)
 	control.Data.Seek(0, 0)
 	data.Data.Seek(0, 0)
